@@ -139,6 +139,7 @@ func c20Walk(m *Sim) {
 		}
 		sleepUntil(target)
 		c20CheckInstant(m, &prev)
+		progress.Add(1)
 	}
 	if m.C.Chance("far-end", 1, 3) {
 		for _, off := range []int64{1<<32 - 301, 1<<32 - 300, 1<<32 - 2, 1<<32 - 1} {
